@@ -160,7 +160,7 @@ func (fc *FontConfig) getNextWord(text string) (int, string) {
 			endOnNext = true
 		} else if char == '\\' && controlCodeLevel == 0 {
 			escape = true
-			if !foundRegularRune {
+			if !foundNonSpace {
 				startPos = pos
 			}
 			foundNonSpace = true
